@@ -126,9 +126,15 @@ rs_register_eqns intListEq
 -- [shm] end
 -- [poller] begin: trait-impl method resolution (`Rs/Interp.lean`, block [poller])
 rs_register_eqns SelfKind.hasRecv traitImplCands traitImplDecl
+-- by-reference arguments (`Rs/Interp.lean`, second block [poller])
+rs_register_eqns derefArgs writeBackArgs hasMutRefParam
 -- [poller] end
 -- [errors] BEGIN
 rs_register_eqns enumFromKeys fnPathArg fnPathParams fnPathArgs
 -- [errors] END
+/-! ### [threads] begin: registrations for the core rules added with the `Threads` group -/
+rs_register_eqns evalEach listPush captureArgs filterBy
+@[rs_eval] theorem Ext.none_refMut (w v st) : Ext.none.refMut w v st = Option.none := rfl
+/-! ### [threads] end -/
 
 end ClockBound.Rs
